@@ -13,21 +13,24 @@ Proof.
   - intros H. exists x. split; [exact H | apply N.eqb_refl].
 Qed.
 
-Lemma cget_cset ch k v k' : cget (cset ch k v) k' = if k =? k' then Some v else cget ch k'.
-Proof. reflexivity. Qed.
+Lemma cget_cset ch w k v k' : cget (cset ch (w, k) v) (w, k') = if k =? k' then Some v else cget ch (w, k').
+Proof. unfold cset. cbn [cget]. unfold ckey_eqb. cbn [fst snd]. rewrite Bool.eqb_reflx. reflexivity. Qed.
 
-Definition st0 : cache * cache := (@nil (N * path) : cache, @nil (N * path) : cache).
+Lemma cget_cset_other ch w w' k v k' : w' <> w -> cget (cset ch (w, k) v) (w', k') = cget ch (w', k').
+Proof. intros H. unfold cset. cbn [cget]. unfold ckey_eqb. cbn [fst snd]. destruct w, w'; try (contradiction H; reflexivity); reflexivity. Qed.
+
+Definition st0 : cache := @nil (ckey * path).
 
 Definition Tof (o : option (cls -> option path)) : cls -> option path :=
   match o with Some T => T | None => fun _ => None end.
 
 (* the loop of _type_to_template_internal seen on a list of classes *)
-Fixpoint scan (T : cls -> option path) (ch : cache) (l : list cls) : cache * option path :=
+Fixpoint scan (T : cls -> option path) (w : bool) (ch : cache) (l : list cls) : cache * option path :=
   match l with
   | [] => (ch, None)
-  | c :: l' => match cget ch c with
+  | c :: l' => match cget ch (w, c) with
                | Some p => (ch, Some p)
-               | None => match T c with Some p => (cset ch c p, Some p) | None => scan T ch l' end
+               | None => match T c with Some p => (cset ch (w, c) p, Some p) | None => scan T w ch l' end
                end
   end.
 
@@ -40,17 +43,17 @@ Proof.
   rewrite (H x (or_introl eq_refl)). apply IH. intros y Hy. apply H. right. exact Hy.
 Qed.
 
-Definition consistent (T : cls -> option path) (ch : cache) : Prop := forall c p, cget ch c = Some p -> T c = Some p.
+Definition consistent (T : cls -> option path) (w : bool) (ch : cache) : Prop := forall c p, cget ch (w, c) = Some p -> T c = Some p.
 
-Lemma consistent_nil T : consistent T [].
+Lemma consistent_nil T w : consistent T w [].
 Proof. intros c p H. discriminate H. Qed.
 
-Lemma scan_consistent T l : forall ch ch' r,
-  consistent T ch -> scan T ch l = (ch', r) -> r = nearest T l /\ consistent T ch'.
+Lemma scan_consistent T w l : forall ch ch' r,
+  consistent T w ch -> scan T w ch l = (ch', r) -> r = nearest T l /\ consistent T w ch'.
 Proof.
   induction l as [|c l IH]; intros ch ch' r HC H; cbn [scan nearest] in *.
   - inversion H; subst. split; [reflexivity | exact HC].
-  - destruct (cget ch c) as [p|] eqn:G.
+  - destruct (cget ch (w, c)) as [p|] eqn:G.
     + inversion H; subst. rewrite (HC c p G). split; [reflexivity | exact HC].
     + destruct (T c) as [p|] eqn:Tc.
       * inversion H; subst. split; [reflexivity|].
@@ -60,21 +63,30 @@ Proof.
       * apply (IH ch ch' r HC H).
 Qed.
 
-Lemma scan_none T l : forall ch ch', scan T ch l = (ch', None) ->
-  ch' = ch /\ forall y, In y l -> cget ch y = None /\ T y = None.
+(* a walk never touches the entries of the other walk *)
+Lemma scan_other T w l : forall ch ch' r, scan T w ch l = (ch', r) -> forall w' k, w' <> w -> cget ch' (w', k) = cget ch (w', k).
+Proof.
+  induction l as [|c l IH]; intros ch ch' r H w' k Hw; cbn [scan] in H.
+  - inversion H; subst. reflexivity.
+  - destruct (cget ch (w, c)); [inversion H; subst; reflexivity|].
+    destruct (T c); [inversion H; subst; apply cget_cset_other; exact Hw | apply (IH ch ch' r H w' k Hw)].
+Qed.
+
+Lemma scan_none T w l : forall ch ch', scan T w ch l = (ch', None) ->
+  ch' = ch /\ forall y, In y l -> cget ch (w, y) = None /\ T y = None.
 Proof.
   induction l as [|c l IH]; intros ch ch' H; cbn [scan] in H.
   - inversion H. split; [reflexivity | intros y []].
-  - destruct (cget ch c) eqn:G; [discriminate H|]. destruct (T c) eqn:Tc; [discriminate H|].
+  - destruct (cget ch (w, c)) eqn:G; [discriminate H|]. destruct (T c) eqn:Tc; [discriminate H|].
     destruct (IH ch ch' H) as [E F]. split; [exact E|]. intros y [->|Hy]; [split; assumption | apply F; exact Hy].
 Qed.
 
-Lemma scan_some T l : forall ch ch' p, scan T ch l = (ch', Some p) ->
-  exists pre x post, l = pre ++ x :: post /\ (forall y, In y pre -> cget ch y = None /\ T y = None) /\
-    ((cget ch x = Some p /\ ch' = ch) \/ (cget ch x = None /\ T x = Some p /\ ch' = cset ch x p)).
+Lemma scan_some T w l : forall ch ch' p, scan T w ch l = (ch', Some p) ->
+  exists pre x post, l = pre ++ x :: post /\ (forall y, In y pre -> cget ch (w, y) = None /\ T y = None) /\
+    ((cget ch (w, x) = Some p /\ ch' = ch) \/ (cget ch (w, x) = None /\ T x = Some p /\ ch' = cset ch (w, x) p)).
 Proof.
   induction l as [|c l IH]; intros ch ch' p H; cbn [scan] in H; [discriminate H|].
-  destruct (cget ch c) as [p0|] eqn:G.
+  destruct (cget ch (w, c)) as [p0|] eqn:G.
   - inversion H; subst. exists [], c, l. split; [reflexivity|]. split; [intros y []|]. left. split; [exact G | reflexivity].
   - destruct (T c) as [p0|] eqn:Tc.
     + inversion H; subst. exists [], c, l. split; [reflexivity|]. split; [intros y []|]. right. repeat split; assumption.
@@ -84,10 +96,10 @@ Proof.
 Qed.
 
 (* a scan does not depend on T beyond its values *)
-Lemma bfs_ext bases T T' : (forall c, T c = T' c) -> forall fuel q d ch, bfs bases T fuel q d ch = bfs bases T' fuel q d ch.
+Lemma bfs_ext bases T T' : (forall c, T c = T' c) -> forall w fuel q d ch, bfs bases T w fuel q d ch = bfs bases T' w fuel q d ch.
 Proof.
-  intros HT. induction fuel as [|f IH]; intros q d ch; cbn [bfs]; [reflexivity|].
-  destruct q as [|cur q']; [reflexivity|]. destruct (cget ch cur); [reflexivity|]. rewrite <- (HT cur).
+  intros HT w. induction fuel as [|f IH]; intros q d ch; cbn [bfs]; [reflexivity|].
+  destruct q as [|cur q']; [reflexivity|]. destruct (cget ch (w, cur)); [reflexivity|]. rewrite <- (HT cur).
   destruct (T cur); [reflexivity|]. destruct (push_bases cur (bases cur) q' d) as [q2 d2]. apply IH.
 Qed.
 
@@ -131,13 +143,13 @@ Section Forest.
   Qed.
 
   (* the BFS with queue and `discovered` set is a scan of the chain (single inheritance, acyclic) *)
-  Lemma bfs_scan T : forall fuel c disc ch,
+  Lemma bfs_scan T w : forall fuel c disc ch,
     (rank c < fuel)%nat -> (forall d, In d disc -> (rank c < rank d)%nat) ->
-    bfs bases T fuel [c] disc ch = scan T ch (chain c).
+    bfs bases T w fuel [c] disc ch = scan T w ch (chain c).
   Proof.
     induction fuel as [|f IH]; intros c disc ch Hf Hd; [lia|].
     cbn [bfs]. rewrite (chain_unfold c). cbn [scan].
-    destruct (cget ch c); [reflexivity|]. destruct (T c); [reflexivity|].
+    destruct (cget ch (w, c)); [reflexivity|]. destruct (T c); [reflexivity|].
     pose proof (Hsingle c) as S1. pose proof (Hrank c) as R.
     destruct (bases c) as [|p [|p' l]]; cbn [push_bases].
     - destruct f; reflexivity.
@@ -153,35 +165,44 @@ Section Forest.
 
     Definition spec (fs pkg : lo) (c : cls) : option path := spec_lookup fs pkg (chain c).
 
-    Definition walk (o : option (cls -> option path)) (ch : cache) (c : cls) : cache * option path :=
-      match o with Some T => scan T ch (chain c) | None => (ch, None) end.
+    Definition walk (o : option (cls -> option path)) (w : bool) (ch : cache) (c : cls) : cache * option path :=
+      match o with Some T => scan T w ch (chain c) | None => (ch, None) end.
 
-    Lemma ttt_scan fs pkg q fuel cf cp c : (rank c < fuel)%nat ->
-      type_to_template bases q fs pkg fuel (cf, cp) c =
-      let '(cf1, r1) := walk fs cf c in
+    Lemma ttt_scan fs pkg q fuel ch c : (rank c < fuel)%nat ->
+      type_to_template bases q fs pkg fuel ch c =
+      let '(ch1, r1) := walk fs W_FS ch c in
       match r1, pkg with
-      | None, Some T => if q then let '(cf2, r2) := scan T cf1 (chain c) in ((cf2, cp), r2)
-                        else let '(cp2, r2) := scan T cp (chain c) in ((cf1, cp2), r2)
-      | _, _ => ((cf1, cp), r1)
+      | None, Some T => scan T (if q then W_FS else W_PKG) ch1 (chain c)
+      | _, _ => (ch1, r1)
       end.
     Proof.
       intros Hf. unfold type_to_template, walk.
       destruct fs as [T|].
-      - rewrite (bfs_scan T fuel c [] cf Hf) by (intros d []).
-        destruct (scan T cf (chain c)) as [cf1 [p|]]; [reflexivity|].
+      - rewrite (bfs_scan T W_FS fuel c [] ch Hf) by (intros d []).
+        destruct (scan T W_FS ch (chain c)) as [ch1 [p|]]; [reflexivity|].
         destruct pkg as [T'|]; [|reflexivity].
-        destruct q; rewrite (bfs_scan T' fuel c []) by (try exact Hf; intros d []); reflexivity.
+        rewrite (bfs_scan T' _ fuel c []) by (try exact Hf; intros d []). reflexivity.
       - destruct pkg as [T'|]; [|reflexivity].
-        destruct q; rewrite (bfs_scan T' fuel c []) by (try exact Hf; intros d []); reflexivity.
+        rewrite (bfs_scan T' _ fuel c []) by (try exact Hf; intros d []). reflexivity.
     Qed.
 
-    Lemma walk_consistent o ch c ch' r : consistent (Tof o) ch -> walk o ch c = (ch', r) ->
-      r = nearest (Tof o) (chain c) /\ consistent (Tof o) ch'.
+    Lemma walk_consistent o w ch c ch' r : consistent (Tof o) w ch -> walk o w ch c = (ch', r) ->
+      r = nearest (Tof o) (chain c) /\ consistent (Tof o) w ch'.
     Proof.
       destruct o as [T|]; cbn [walk Tof]; intros HC H.
-      - apply (scan_consistent T (chain c) ch ch' r HC H).
+      - apply (scan_consistent T w (chain c) ch ch' r HC H).
       - inversion H; subst. split; [|exact HC]. symmetry. apply nearest_none. reflexivity.
     Qed.
+
+    Lemma walk_other o w ch c ch' r : walk o w ch c = (ch', r) -> forall w' k, w' <> w -> cget ch' (w', k) = cget ch (w', k).
+    Proof.
+      destruct o as [T|]; cbn [walk]; intros H.
+      - apply (scan_other T w (chain c) ch ch' r H).
+      - inversion H; subst. reflexivity.
+    Qed.
+
+    Lemma consistent_transfer T w ch ch' : (forall k, cget ch' (w, k) = cget ch (w, k)) -> consistent T w ch -> consistent T w ch'.
+    Proof. intros E H c p G. rewrite E in G. apply (H c p G). Qed.
 
     Lemma spec_eq fs pkg c : spec fs pkg c = match nearest (Tof fs) (chain c) with Some p => Some p | None => nearest (Tof pkg) (chain c) end.
     Proof.
@@ -192,28 +213,35 @@ Section Forest.
         symmetry. apply nearest_none. reflexivity.
     Qed.
 
-    (* ---- separate memos (conformant behaviour): always transparent ------------------------------------- *)
-    Definition inv_sep (fs pkg : lo) (st : cache * cache) : Prop := consistent (Tof fs) (fst st) /\ consistent (Tof pkg) (snd st).
+    (* ---- the memo keyed by (walk, class) -- the code as it is: always transparent ------------------------------ *)
+    Definition inv_sep (fs pkg : lo) (ch : cache) : Prop := consistent (Tof fs) W_FS ch /\ consistent (Tof pkg) W_PKG ch.
 
-    Lemma step_sep fs pkg fuel st c st' r : (rank c < fuel)%nat -> inv_sep fs pkg st ->
-      type_to_template bases false fs pkg fuel st c = (st', r) -> r = spec fs pkg c /\ inv_sep fs pkg st'.
+    Lemma W_neq : W_PKG <> W_FS.
+    Proof. discriminate. Qed.
+    Lemma W_neq' : W_FS <> W_PKG.
+    Proof. discriminate. Qed.
+
+    Lemma step_sep fs pkg fuel ch c ch' r : (rank c < fuel)%nat -> inv_sep fs pkg ch ->
+      type_to_template bases false fs pkg fuel ch c = (ch', r) -> r = spec fs pkg c /\ inv_sep fs pkg ch'.
     Proof.
-      destruct st as [cf cp]. unfold inv_sep. cbn [fst snd]. intros Hf [Hcf Hcp] H. rewrite (ttt_scan fs pkg false fuel cf cp c Hf) in H.
-      rewrite spec_eq. destruct (walk fs cf c) as [cf1 r1] eqn:W.
-      destruct (walk_consistent fs cf c cf1 r1 Hcf W) as [E1 C1]. rewrite <- E1.
+      unfold inv_sep. intros Hf [Hcf Hcp] H. rewrite (ttt_scan fs pkg false fuel ch c Hf) in H.
+      rewrite spec_eq. destruct (walk fs W_FS ch c) as [ch1 r1] eqn:W.
+      destruct (walk_consistent fs W_FS ch c ch1 r1 Hcf W) as [E1 C1]. rewrite <- E1.
+      assert (Cp1 : consistent (Tof pkg) W_PKG ch1).
+      { apply (consistent_transfer _ _ ch); [|exact Hcp]. intros k. apply (walk_other fs W_FS ch c ch1 r1 W W_PKG k W_neq). }
       destruct r1 as [p|].
       - inversion H; subst. split; [reflexivity | split; assumption].
       - destruct pkg as [T'|] eqn:Epkg.
-        + destruct (scan T' cp (chain c)) as [cp2 r2] eqn:S2. inversion H; subst.
-          destruct (scan_consistent T' (chain c) cp cp2 r Hcp S2) as [E2 C2].
-          split; [exact E2 | split; assumption].
+        + cbn [Tof] in *. destruct (scan_consistent T' W_PKG (chain c) ch1 ch' r Cp1 H) as [E2 C2].
+          split; [exact E2 | split; [|exact C2]].
+          apply (consistent_transfer _ _ ch1); [|exact C1]. intros k. apply (scan_other T' W_PKG (chain c) ch1 ch' r H W_FS k W_neq').
         + inversion H; subst. split; [|split; assumption]. symmetry. apply nearest_none. reflexivity.
     Qed.
 
-    (* ---- the shared memo (the unchanged code) ------------------------------------------------------------ *)
+    (* ---- the memo keyed by class only (the code before fix 1341207; kept as documentation) ---------------------- *)
     (* an entry is either a file-system hit, or a package hit for a class none of whose ancestors has a user template *)
-    Definition inv_sh (fs pkg : lo) (cf : cache) : Prop :=
-      forall c p, cget cf c = Some p ->
+    Definition inv_sh (fs pkg : lo) (ch : cache) : Prop :=
+      forall c p, cget ch (W_FS, c) = Some p ->
         Tof fs c = Some p \/ (Tof pkg c = Some p /\ forall a, In a (chain c) -> Tof fs a = None).
 
     (* the built-in set has no template for a class and for one of its proper ancestors *)
@@ -222,39 +250,37 @@ Section Forest.
 
     Definition transparent_cond (fs pkg : lo) : Prop := fs = None \/ pkg = None \/ antichain (Tof pkg).
 
-    Lemma inv_sh_nofs fs pkg cf : fs = None -> inv_sh fs pkg cf -> consistent (Tof pkg) cf.
+    Lemma inv_sh_nofs fs pkg ch : fs = None -> inv_sh fs pkg ch -> consistent (Tof pkg) W_FS ch.
     Proof.
       intros E H c p G. destruct (H c p G) as [F|[P _]]; [rewrite E in F; discriminate F | exact P].
     Qed.
 
-    Lemma step_sh fs pkg fuel cf cp c st' r : transparent_cond fs pkg -> (rank c < fuel)%nat -> inv_sh fs pkg cf ->
-      type_to_template bases true fs pkg fuel (cf, cp) c = (st', r) -> r = spec fs pkg c /\ inv_sh fs pkg (fst st') /\ snd st' = cp.
+    Lemma step_sh fs pkg fuel ch c ch' r : transparent_cond fs pkg -> (rank c < fuel)%nat -> inv_sh fs pkg ch ->
+      type_to_template bases true fs pkg fuel ch c = (ch', r) -> r = spec fs pkg c /\ inv_sh fs pkg ch'.
     Proof.
-      intros Hok Hf Hinv H. unfold inv_sh, transparent_cond in *. rewrite (ttt_scan fs pkg true fuel cf cp c Hf) in H. rewrite spec_eq.
+      intros Hok Hf Hinv H. unfold inv_sh, transparent_cond in *. rewrite (ttt_scan fs pkg true fuel ch c Hf) in H. rewrite spec_eq.
       destruct fs as [T|] eqn:Efs.
       2:{ (* no file-system loader: only the package walk uses the memo *)
-        pose proof (inv_sh_nofs None pkg cf eq_refl Hinv) as HC. cbn [walk Tof] in *.
+        pose proof (inv_sh_nofs None pkg ch eq_refl Hinv) as HC. cbn [walk Tof] in *.
         rewrite (nearest_none (fun _ : cls => @None path)) by reflexivity.
         destruct pkg as [T'|] eqn:Epkg; cbn [Tof] in *.
-        - destruct (scan T' cf (chain c)) as [cf2 r2] eqn:S2. inversion H; subst. cbn [fst snd].
-          destruct (scan_consistent T' (chain c) cf cf2 r HC S2) as [E2 C2].
-          split; [exact E2|]. split; [|reflexivity]. intros k v G. right. split; [apply C2; exact G | reflexivity].
-        - inversion H; subst. cbn [fst snd]. split; [|split; [exact Hinv | reflexivity]].
-          symmetry. apply nearest_none. reflexivity. }
+        - destruct (scan_consistent T' W_FS (chain c) ch ch' r HC H) as [E2 C2].
+          split; [exact E2|]. intros k v G. right. split; [apply C2; exact G | reflexivity].
+        - inversion H; subst. split; [|exact Hinv]. symmetry. apply nearest_none. reflexivity. }
       cbn [walk Tof] in *.
-      destruct (scan T cf (chain c)) as [cf1 r1] eqn:W.
+      destruct (scan T W_FS ch (chain c)) as [ch1 r1] eqn:W.
       destruct r1 as [p|].
       - (* the file-system walk returned something *)
-        inversion H; subst. cbn [fst snd].
-        destruct (scan_some T (chain c) cf cf1 p W) as [pre [x [post [E [F D]]]]].
+        inversion H; subst.
+        destruct (scan_some T W_FS (chain c) ch ch' p W) as [pre [x [post [E [F D]]]]].
         destruct D as [[G ->]|[G [Tx ->]]].
         + (* memo hit *)
           destruct (Hinv x p G) as [Tx|[Px Anc]].
-          * split; [|split; [exact Hinv | reflexivity]].
+          * split; [|exact Hinv].
             rewrite E, nearest_app, (nearest_none T pre) by (intros y Hy; apply F; exact Hy).
             cbn [nearest]. rewrite Tx. reflexivity.
           * (* entry written by an earlier package walk *)
-            split; [|split; [exact Hinv | reflexivity]].
+            split; [|exact Hinv].
             pose proof (chain_suffix pre c x post E) as Sx.
             assert (NF : nearest T (chain c) = None).
             { apply nearest_none. intros y Hy. rewrite E in Hy. apply in_app_or in Hy. destruct Hy as [Hy|Hy].
@@ -276,76 +302,76 @@ Section Forest.
           split.
           * rewrite E, nearest_app, (nearest_none T pre) by (intros y Hy; apply F; exact Hy).
             cbn [nearest]. rewrite Tx. reflexivity.
-          * split; [|reflexivity]. intros k v. rewrite cget_cset. destruct (x =? k) eqn:Ek.
+          * intros k v. rewrite cget_cset. destruct (x =? k) eqn:Ek.
             -- apply N.eqb_eq in Ek. subst k. intros Hv. inversion Hv; subst. left. exact Tx.
             -- apply Hinv.
       - (* the file-system walk found nothing: memo unchanged, no entry on the whole chain, no user template on it *)
-        destruct (scan_none T (chain c) cf cf1 W) as [-> NoHit].
+        destruct (scan_none T W_FS (chain c) ch ch1 W) as [-> NoHit].
         assert (NF : nearest T (chain c) = None) by (apply nearest_none; intros y Hy; apply NoHit; exact Hy).
         rewrite NF.
         destruct pkg as [T'|] eqn:Epkg.
-        + destruct (scan T' cf (chain c)) as [cf2 r2] eqn:S2. inversion H; subst. cbn [fst snd Tof] in *.
+        + cbn [Tof] in *.
           destruct r as [p|].
-          * destruct (scan_some T' (chain c) cf cf2 p S2) as [pre [x [post [E [F D]]]]].
+          * destruct (scan_some T' W_FS (chain c) ch ch' p H) as [pre [x [post [E [F D]]]]].
             destruct D as [[G _]|[G [Tx ->]]].
             -- rewrite (proj1 (NoHit x ltac:(rewrite E; apply in_or_app; right; left; reflexivity))) in G. discriminate G.
             -- split.
                ++ rewrite E, nearest_app, (nearest_none T' pre) by (intros y Hy; apply F; exact Hy).
                   cbn [nearest]. rewrite Tx. reflexivity.
-               ++ split; [|reflexivity]. intros k v. rewrite cget_cset. destruct (x =? k) eqn:Ek.
+               ++ intros k v. rewrite cget_cset. destruct (x =? k) eqn:Ek.
                   ** apply N.eqb_eq in Ek. subst k. intros Hv. inversion Hv; subst. right. split; [exact Tx|].
                      intros a Ha. pose proof (chain_suffix pre c x post E) as Sx.
                      apply NoHit. rewrite E. apply in_or_app. right. rewrite Sx. exact Ha.
                   ** apply Hinv.
-          * destruct (scan_none T' (chain c) cf cf2 S2) as [-> F]. split; [|split; [exact Hinv | reflexivity]].
+          * destruct (scan_none T' W_FS (chain c) ch ch' H) as [-> F]. split; [|exact Hinv].
             symmetry. apply nearest_none. intros y Hy. apply F. exact Hy.
-        + inversion H; subst. cbn [fst snd Tof]. split; [|split; [exact Hinv | reflexivity]].
+        + inversion H; subst. cbn [Tof]. split; [|exact Hinv].
           symmetry. apply nearest_none. reflexivity.
     Qed.
 
     (* ---- sequences of lookups -------------------------------------------------------------------------- *)
-    Lemma run_seq_sep fs pkg fuel : forall cs st, (forall c, In c cs -> (rank c < fuel)%nat) -> inv_sep fs pkg st ->
-      run_seq bases false fs pkg fuel st cs = map (spec fs pkg) cs.
+    Lemma run_seq_sep fs pkg fuel : forall cs ch, (forall c, In c cs -> (rank c < fuel)%nat) -> inv_sep fs pkg ch ->
+      run_seq bases false fs pkg fuel ch cs = map (spec fs pkg) cs.
     Proof.
-      induction cs as [|c cs IH]; intros st Hf Hinv; cbn [run_seq map]; [reflexivity|].
-      destruct (type_to_template bases false fs pkg fuel st c) as [st' r] eqn:E.
-      destruct (step_sep fs pkg fuel st c st' r (Hf c (or_introl eq_refl)) Hinv E) as [-> Hinv'].
+      induction cs as [|c cs IH]; intros ch Hf Hinv; cbn [run_seq map]; [reflexivity|].
+      destruct (type_to_template bases false fs pkg fuel ch c) as [ch' r] eqn:E.
+      destruct (step_sep fs pkg fuel ch c ch' r (Hf c (or_introl eq_refl)) Hinv E) as [-> Hinv'].
       f_equal. apply IH; [|exact Hinv']. intros x Hx. apply Hf. right. exact Hx.
     Qed.
 
-    Lemma run_seq_sh fs pkg fuel : transparent_cond fs pkg -> forall cs cf cp,
-      (forall c, In c cs -> (rank c < fuel)%nat) -> inv_sh fs pkg cf ->
-      run_seq bases true fs pkg fuel (cf, cp) cs = map (spec fs pkg) cs.
+    Lemma run_seq_sh fs pkg fuel : transparent_cond fs pkg -> forall cs ch,
+      (forall c, In c cs -> (rank c < fuel)%nat) -> inv_sh fs pkg ch ->
+      run_seq bases true fs pkg fuel ch cs = map (spec fs pkg) cs.
     Proof.
-      intros Hok. induction cs as [|c cs IH]; intros cf cp Hf Hinv; cbn [run_seq map]; [reflexivity|].
-      destruct (type_to_template bases true fs pkg fuel (cf, cp) c) as [[cf' cp'] r] eqn:E.
-      destruct (step_sh fs pkg fuel cf cp c (cf', cp') r Hok (Hf c (or_introl eq_refl)) Hinv E) as [-> [Hinv' _]].
+      intros Hok. induction cs as [|c cs IH]; intros ch Hf Hinv; cbn [run_seq map]; [reflexivity|].
+      destruct (type_to_template bases true fs pkg fuel ch c) as [ch' r] eqn:E.
+      destruct (step_sh fs pkg fuel ch c ch' r Hok (Hf c (or_introl eq_refl)) Hinv E) as [-> Hinv'].
       f_equal. apply IH; [|exact Hinv']. intros x Hx. apply Hf. right. exact Hx.
     Qed.
 
-    Lemma inv_sh_nil fs pkg : inv_sh fs pkg [].
+    Lemma inv_sh_nil fs pkg : inv_sh fs pkg st0.
     Proof. intros c p H. discriminate H. Qed.
 
-    Lemma inv_sep_nil fs pkg : inv_sep fs pkg ([], []).
+    Lemma inv_sep_nil fs pkg : inv_sep fs pkg st0.
     Proof. split; apply consistent_nil. Qed.
 
-    (* a single lookup on a fresh loader: nearest ancestor, user set first -- with either memo discipline *)
+    (* a single lookup on a fresh loader: nearest ancestor, user set first -- with either key discipline *)
     Lemma cold_lookup q fs pkg fuel c : (rank c < fuel)%nat ->
       snd (type_to_template bases q fs pkg fuel st0 c) = spec fs pkg c.
     Proof.
-      intros Hf. unfold st0. destruct q.
-      - rewrite (ttt_scan fs pkg true fuel [] [] c Hf), spec_eq.
-        destruct (walk fs [] c) as [cf1 r1] eqn:W.
-        destruct (walk_consistent fs [] c cf1 r1 (consistent_nil _) W) as [E1 C1]. rewrite <- E1.
-        destruct r1 as [p|]; [reflexivity|].
-        assert (cf1 = []) as ->.
-        { destruct fs as [T|]; cbn [walk] in W; [apply (scan_none T (chain c) [] cf1 W) | inversion W; reflexivity]. }
-        destruct pkg as [T'|]; cbn [Tof snd].
-        + destruct (scan T' [] (chain c)) as [cf2 r2] eqn:S2. cbn [snd].
-          apply (scan_consistent T' (chain c) [] cf2 r2 (consistent_nil _) S2).
-        + symmetry. apply nearest_none. reflexivity.
-      - destruct (type_to_template bases false fs pkg fuel (([] : cache), ([] : cache)) c) as [st' r] eqn:E.
-        apply (step_sep fs pkg fuel ([], []) c st' r Hf (inv_sep_nil fs pkg) E).
+      intros Hf. destruct q.
+      - destruct (type_to_template bases true fs pkg fuel st0 c) as [ch' r] eqn:E. cbn [snd].
+        rewrite (ttt_scan fs pkg true fuel st0 c Hf) in E. rewrite spec_eq.
+        destruct (walk fs W_FS st0 c) as [ch1 r1] eqn:W.
+        destruct (walk_consistent fs W_FS st0 c ch1 r1 (consistent_nil _ _) W) as [E1 C1]. rewrite <- E1.
+        destruct r1 as [p|]; [inversion E; reflexivity|].
+        assert (ch1 = st0) as ->.
+        { destruct fs as [T|]; cbn [walk] in W; [apply (scan_none T W_FS (chain c) st0 ch1 W) | inversion W; reflexivity]. }
+        destruct pkg as [T'|]; cbn [Tof].
+        + apply (scan_consistent T' W_FS (chain c) st0 ch' r (consistent_nil _ _) E).
+        + inversion E. symmetry. apply nearest_none. reflexivity.
+      - destruct (type_to_template bases false fs pkg fuel st0 c) as [ch' r] eqn:E.
+        apply (step_sep fs pkg fuel st0 c ch' r Hf (inv_sep_nil fs pkg) E).
     Qed.
   End Sets.
 End Forest.
@@ -402,13 +428,13 @@ Definition oeq (a b : option (cls -> option path)) : Prop :=
 Lemma ttt_ext bases q fs fs' pkg pkg' fuel st c : oeq fs fs' -> oeq pkg pkg' ->
   type_to_template bases q fs pkg fuel st c = type_to_template bases q fs' pkg' fuel st c.
 Proof.
-  intros Hf Hp. unfold type_to_template. destruct st as [cf cp].
+  intros Hf Hp. unfold type_to_template.
   destruct fs as [f|], fs' as [f'|]; cbn [oeq] in Hf; try contradiction.
-  - rewrite (bfs_ext bases f f' Hf). destruct (bfs bases f' fuel [c] [] cf) as [cf1 [p|]]; [reflexivity|].
+  - rewrite (bfs_ext bases f f' Hf). destruct (bfs bases f' W_FS fuel [c] [] st) as [ch1 [p|]]; [reflexivity|].
     destruct pkg as [g|], pkg' as [g'|]; cbn [oeq] in Hp; try contradiction; [|reflexivity].
-    destruct q; rewrite (bfs_ext bases g g' Hp); reflexivity.
+    rewrite (bfs_ext bases g g' Hp). reflexivity.
   - destruct pkg as [g|], pkg' as [g'|]; cbn [oeq] in Hp; try contradiction; [|reflexivity].
-    destruct q; rewrite (bfs_ext bases g g' Hp); reflexivity.
+    rewrite (bfs_ext bases g g' Hp). reflexivity.
 Qed.
 
 Lemma run_seq_ext bases q fs fs' pkg pkg' fuel : oeq fs fs' -> oeq pkg pkg' -> forall cs st,
@@ -435,7 +461,7 @@ Lemma enum_order_indep_lemma bases q cname fuel d d' p p' st cs : operm d d' -> 
 Proof. intros Hd Hp. apply run_seq_ext; apply operm_oeq; assumption. Qed.
 
 (* ---- get_source: a user template shadows the built-in one of the same name ---------------------------------- *)
-Lemma get_source_user_first fs pkg name : has_file fs name = true -> get_source (Some fs) pkg name = Some SrcFs.
+Lemma get_source_user_first (fs : list path) pkg name : has_file fs name = true -> get_source (Some fs) pkg name = Some SrcFs.
 Proof. intros H. unfold get_source. rewrite H. reflexivity. Qed.
 
 Lemma get_source_fallback fs pkg name : has_file fs name = false -> has_file pkg name = true ->
@@ -459,3 +485,35 @@ Qed.
 Lemma test_agrees_refuted_lemma :
   field_is_instance w_bases true 3 0 1 {| v_cls := 1; v_dt := 5 |} <> spec_test w_bases 3 0 1 {| v_cls := 1; v_dt := 5 |}.
 Proof. vm_compute. discriminate. Qed.
+
+(* ---- listing -> index: only a file whose NAME is exactly <stem><suffix> is indexed under <stem> ------------------------ *)
+Lemma rsplit_dot_app : forall s a b, rsplit_dot s = Some (a, b) -> s = a ++ b.
+Proof.
+  induction s as [|c s IH]; intros a b H; cbn [rsplit_dot] in H; [discriminate H|].
+  destruct (rsplit_dot s) as [[a' b']|] eqn:R.
+  - inversion H; subst. cbn [app]. f_equal. apply IH. reflexivity.
+  - destruct (c =? 46); [|discriminate H]. inversion H; subst. reflexivity.
+Qed.
+
+Lemma py_suffix_stem n : py_suffix n <> [] -> n = py_stem n ++ py_suffix n.
+Proof.
+  unfold py_suffix, py_stem. destruct (rsplit_dot n) as [[a b]|] eqn:R; [|intros H; contradiction H; reflexivity].
+  destruct (dot_ok a b); [|intros H; contradiction H; reflexivity]. intros _. apply rsplit_dot_app. exact R.
+Qed.
+
+Lemma aget_In {A} (l : list (str * A)) n v : aget l n = Some v -> In (n, v) l.
+Proof.
+  induction l as [|[k w] l IH]; cbn [aget]; [discriminate|].
+  destruct (aget l n) as [x|] eqn:G.
+  - intros H. inversion H; subst. right. apply IH. reflexivity.
+  - destruct (str_eqb_spec k n) as [->|]; [|discriminate]. intros H. inversion H; subst. left. reflexivity.
+Qed.
+
+Lemma mk_tset_exact suffix listing k p : suffix <> [] -> aget (mk_tset suffix listing) k = Some p ->
+  In p listing /\ basename p = k ++ suffix.
+Proof.
+  intros Hs H. apply aget_In in H. unfold mk_tset in H. apply in_map_iff in H. destruct H as [x [E Hx]].
+  inversion E; subst. apply filter_In in Hx. destruct Hx as [Hin Hf]. split; [exact Hin|].
+  destruct (str_eqb_spec (py_suffix (basename p)) suffix) as [Es|]; [|discriminate Hf].
+  rewrite <- Es. apply py_suffix_stem. rewrite Es. exact Hs.
+Qed.
